@@ -40,8 +40,8 @@ def make_case(rng, i):
     kinds = set()
     pre = rng.random() < 0.0
     if rng.random() < 0.35:
-        v = rng.choice([0, 3, 3])
-        drop = rng.random() < 0.5
+        v = rng.choice([0, 3, 4, 4])
+        drop = rng.random() < 0.5 or v == 4
         steps.append({"op": "other", "action": "define_same_name", "variant": v, "drop": drop,
                       "events": [rng.choice(spec["events"]) for _ in range(2)]})
         kinds.add(("same-name-class-defined-first", v, "dropped-and-collected" if drop else "kept"))
@@ -69,7 +69,7 @@ def make_case(rng, i):
                 steps.append({"op": "other", "action": "send", "event": rng.choice(spec["events"])})
                 kinds.add(("other-instance-send", idx * 3 // max(1, len(hist))))
         elif r < 0.42:
-            v = rng.randint(0, 3)
+            v = rng.randint(0, 4)
             steps.append({"op": "other", "action": "define_same_name", "variant": v,
                           "events": [rng.choice(spec["events"]) for _ in range(2)]})
             kinds.add(("same-name-class", v, idx * 3 // max(1, len(hist))))
